@@ -55,6 +55,10 @@ def adequate(stmts):
     """no size thresholds: integer constants other than 0 and 1 occur only as (small) positions inside a subscript - op-column numbers"""
     for st in stmts:
         in_slice = set()
+        ndim_cmp = set()
+        for n in ast.walk(st):
+            if isinstance(n, ast.Compare) and any(isinstance(x, ast.Attribute) and x.attr == 'ndim' for x in [n.left] + n.comparators):
+                ndim_cmp.update(id(x) for x in [n.left] + n.comparators if isinstance(x, ast.Constant))
         for n in ast.walk(st):
             if isinstance(n, ast.Subscript):
                 for c in ast.walk(n.slice):
@@ -65,6 +69,8 @@ def adequate(stmts):
                 for c in n.args[0].elts:
                     in_slice.add(id(c))
         for c in ast.walk(st):
+            if isinstance(c, ast.Constant) and type(c.value) is int and c.value not in (0, 1) and id(c) in ndim_cmp:
+                continue        # `x.ndim == 2` asks for the rank of a table, not for the size of the circuit
             if isinstance(c, ast.Constant) and type(c.value) is int and c.value not in (0, 1):
                 if not (id(c) in in_slice and 0 <= c.value <= 9):
                     return False
@@ -260,6 +266,11 @@ class _Rows(list):
             raise ModelError('minieval: two-dimensional subscript of the op table')
         return list.__getitem__(self, k)
 
+    def __getattr__(self, name):
+        if name.startswith('_'):
+            raise AttributeError(name)          # probes of the evaluator itself
+        raise ModelError(f'minieval: array attribute .{name} of the op table')
+
 
 class LogArr(IntArr):
     def __init__(self, vals, clock):
@@ -292,6 +303,7 @@ def _lognd():
             self.stores = []
 
         def __setitem__(self, k, val):
+            k = self._demask(k)
             nd = self._nd_index(k)
             if nd is not None:
                 from .ndarr import _flat
@@ -502,7 +514,14 @@ def _run_mode(stmts, cls, modtree, nd):
                         continue
                     except ModelError:
                         raise
-                    except (IndexError, KeyError, TypeError, AttributeError, ValueError, RuntimeError, AssertionError, ZeroDivisionError) as e:
+                    except (TypeError, AttributeError) as e:
+                        if not nd:
+                            # the per-op stand-ins (lists of rows, one-dimensional integer tables) do not have the array interface: array code is
+                            # judged in the vector form, where the same exception is a finding
+                            raise ModelError(f'minieval: per-op form: {type(e).__name__}: {e}')
+                        fail('C07.level', f'raises {type(e).__name__}: {e}', desc)
+                        continue
+                    except (IndexError, KeyError, ValueError, RuntimeError, AssertionError, ZeroDivisionError) as e:
                         fail('C07.level', f'raises {type(e).__name__}: {e}', desc)
                         continue
                     if nd and not (isinstance(getattr(me, 'c_locs', None), tables) and isinstance(getattr(me, 'c_caps', None), tables)):
